@@ -1,17 +1,32 @@
 #!/bin/bash
-# seeded_matrix.sh [ids...]: for each seeded change, run the quick check of its property against a scratch worktree with the patch applied
-# (PYVC_REPO points the whole machinery at that tree); writes seeded/matrix.json
+# seeded_matrix.sh [ids...]: for each seeded change, run the quick check of its property against a scratch worktree of /repo with the
+# patch applied (PYVC_REPO points the whole machinery at that tree, evidence goes to seeded/.evidence so that the evidence of the
+# unchanged tree is never overwritten); appends one JSON line per change to seeded/matrix.jsonl and updates seeded/<id>/meta.json
 wt=/tmp/seedwt
 git -C /repo worktree remove --force $wt >/dev/null 2>&1
 git -C /repo worktree add -q --detach $wt HEAD || exit 2
 ids="$@"; [ -z "$ids" ] && ids=$(ls -d seeded/C*-* | xargs -n1 basename)
 for id in $ids; do
   p=${id%%-*}
-  git -C $wt checkout -q -- . ; git -C $wt apply $(readlink -f seeded/$id/patch.diff) || { echo "$id NOAPPLY"; continue; }
-  if ! python3 -c "import json,sys; sys.exit(0 if any(c['property_id']=='$p' for c in json.load(open('MANIFEST.json'))['checks']) else 1)"; then echo "$id property-not-claimed"; continue; fi
+  git -C $wt checkout -q -- . ; git -C $wt clean -fdq; git -C $wt apply $(readlink -f seeded/$id/patch.diff) || { echo "$id NOAPPLY"; continue; }
   out=$(VERIF_EVIDENCE_DIR=seeded/.evidence PYVC_REPO=$wt ./check $p --tier quick --no-canaries 2>&1); rc=$?
-  ded=$(python3 -c "import json; e=json.load(open('seeded/.evidence/$p.json')); print(len(e['coverage']['refuted']), len(e['coverage']['undecided']), (e['coverage'].get('bounded_standins') or [{}])[0].get('failures'))")
-  echo "$id exit=$rc refuted/undecided/native=$ded :: $(echo "$out" | grep -c VIOLATION) VIOLATION lines"
+  python3 - "$id" "$p" "$rc" <<'PY'
+import json, sys, os
+id_, p, rc = sys.argv[1], sys.argv[2], int(sys.argv[3])
+e = json.load(open('seeded/.evidence/%s.json' % p)); c = e['coverage']
+st = (c.get('bounded_standins') or [{}])[0]
+row = {"id": id_, "property": p, "exit": rc, "refuted_obligations": c['refuted'][:3], "n_refuted": len(c['refuted']),
+       "undecided": c['undecided'][:3], "n_undecided": len(c['undecided']), "native_failures": st.get('failures'),
+       "violation_lines": e.get('violations')}
+how = []
+if row["n_refuted"]: how.append("deductive: obligation %s fails (+%d more)" % (row["refuted_obligations"][0], row["n_refuted"] - 1))
+if row["n_undecided"]: how.append("undecided: %s" % row["undecided"][0])
+if row["native_failures"]: how.append("bounded native driver: %s failing scenario(s)" % row["native_failures"])
+row["detected_by"] = how
+open('seeded/matrix.jsonl', 'a').write(json.dumps(row) + "\n")
+mp = 'seeded/%s/meta.json' % id_
+m = json.load(open(mp)); m["detected_by"] = how; m["check_exit"] = rc; json.dump(m, open(mp, 'w'), indent=1)
+print(id_, "exit=%d" % rc, "; ".join(how)[:300])
+PY
 done
 git -C /repo worktree remove --force $wt
-
